@@ -515,6 +515,39 @@ func (x *SExec) apply(i int, op SOp) *Fail {
 				}
 			}
 		}
+	case "verifyonly":
+		// the controller is asked to verify a rebuilding replica that has not been
+		// synced: it must refuse when the chains differ (only then is the call made)
+		n := x.woNode()
+		if n < 0 {
+			return nil
+		}
+		src := -1
+		for j, m := range x.Mode {
+			if m == types.RW {
+				src = j
+			}
+		}
+		if src < 0 || st.Nodes[src].S.Replica() == nil || st.Nodes[n].S.Replica() == nil {
+			return nil
+		}
+		sc, e1 := st.Nodes[src].S.Replica().Chain()
+		dc, e2 := st.Nodes[n].S.Replica().Chain()
+		if e1 != nil || e2 != nil || len(sc) < 2 || len(dc) < 1 || strings.Join(sc[1:], ",") == strings.Join(dc[1:], ",") {
+			return nil
+		}
+		// as in the product's flow the replica is flagged rebuilding first
+		if err := st.Nodes[n].S.SetRebuilding(true); err != nil {
+			return nil
+		}
+		err := c.VerifyRebuildReplica(st.Nodes[n].Addr)
+		x.tracef("verifyonly n%d (chain %v, source n%d chain %v) -> %v", n, dc, src, sc, err)
+		x.Labels["verifyonly:chains-differ"]++
+		if err == nil || st.Mode(n) == types.RW {
+			return sfail("verify|accepted-different-chain", fmt.Sprintf("n%d was not synced (chain %v, source n%d has %v) but the verification made it %s (err=%v)", n, dc, src, sc, st.Mode(n), err), "C07", "C04")
+		}
+		// (the replica's process would restart and clear the flag of the failed rebuild)
+		st.Nodes[n].S.SetRebuilding(false)
 	case "addrace":
 		// two add requests in flight at once: both are admitted (or not) while
 		// the other one is connecting to its replica; the bookkeeping invariants
